@@ -141,6 +141,8 @@ def fold_definition(prog, f, eng, t):
 
 
 def leaves(t, conds=()):
+    if t == ("never",):
+        return []           # no value: the function was left there by a panic (`unreachable!()` arms are C14's business)
     if isinstance(t, tuple) and t and t[0] == "ite":
         return leaves(t[2], conds + ((t[1], True),)) + leaves(t[3], conds + ((t[1], False),))
     if isinstance(t, tuple) and t and t[0] == "join":
@@ -191,6 +193,21 @@ def analyse(prog, f, eng=None):
                 break
         lv.cls = pred_class(prog, lv.pos[3], elem) if elem is not None else None
         lv.idx = ("proj", lv.pos, norm.SOME, 0)
+    if lv.cls is not None and lv.idx is not None:
+        # a test of the found token against a pattern that covers the searched class cannot fail (e.g. `Some((l, Binary(op), r))` after a
+        # search for the binary temporal operators): it is no condition of the level
+        at = ("index", lv.tokens, lv.idx)
+        sure = []
+        for y in [ret] + list(subterms(ret)):
+            if y[0] == "matches" and y[1] == at:
+                c = desc_class(prog, y[2])
+                if c is not None and lv.cls <= c and y not in sure:
+                    sure.append(y)
+        for y in sure:
+            ret = terms.replace(ret, y, ("lit", True))
+        if sure:
+            ret = nz(ret)
+            lv.ret = ret
     lv.cases = leaves(ret)
     return lv
 
